@@ -12,6 +12,9 @@
    2. the ATTACH mode of update_xml_value for opaque members
         Copy : sub_node.extend(copy_node_wo_parent(x) for x in value)      (all three opaque kinds, after the repair)
         Move : sub_node.extend(value)        (lxml: an element has ONE parent - extend() re-parents it)
+   3. the GET policy of descriptor.__get__ (what the application sees through attribute access)
+        GetIfNone  : the implied value is returned only when NOTHING is stored (value is None)
+        GetIfFalsy : `if not value` - a stored False / 0 / 0.0 / Decimal(0) / '' is replaced by the implied value
    Definitions only; proofs: XmlStruct/InstanceProofs.v. *)
 From Coq Require Import List ZArith NArith Bool.
 From SDC Require Import XmlStruct.Model.
@@ -157,3 +160,37 @@ Fixpoint obs_eqb (a b : list (list (list tree) * list tree)) : bool :=
   | (d1, v1) :: ra, (d2, v2) :: rb => tll_eqb d1 d2 && trees_eqb v1 v2 && obs_eqb ra rb
   | _, _ => false
   end.
+
+(* ---------------------------------------------------------------- 3. attribute access: descriptor.__get__ *)
+Inductive get_policy := GetIfNone | GetIfFalsy.
+
+(* the kinds whose descriptors use the base class __get__ (stored value, else the implied value) *)
+Definition base_get (k : kind) : bool :=
+  match k with KAttr | KCurTs | KText | KSub | KSubNonEmpty | KAny => true | _ => false end.
+
+(* fz v: Python's truth value of the stored object is False (atoms are canonical TEXTS, so this is supplied by the
+   harness per value: False, 0, 0.0, Decimal(0), '' ...) *)
+Definition public_get (g : get_policy) (fz : val -> bool) (p : prop) (implied : option val) (raw : val) : val :=
+  match p_kind p with
+  | KExt => match raw with VNone => VOpaque [] | _ => raw end           (* ExtensionNodeProperty.__get__ *)
+  | k => if base_get k
+         then match implied, raw with
+              | Some i, VNone => i
+              | Some i, _ => match g with GetIfNone => raw | GetIfFalsy => if fz raw then i else raw end
+              | None, _ => raw
+              end
+         else raw                                                       (* list kinds: the stored list *)
+  end.
+
+Fixpoint public_all (g : get_policy) (fz : val -> bool) (ps : list prop) (impls : list (option val)) (raws : list val)
+  : list val :=
+  match ps, impls, raws with
+  | p :: ps', i :: impls', r :: raws' => public_get g fz p i r :: public_all g fz ps' impls' raws'
+  | _, _, _ => []
+  end.
+
+Definition get_impl : get_policy := GetIfNone.
+
+(* stream `get`: descriptor, implied value, truth value of the stored object, stored value *)
+Definition run_get (x : prop * option val * bool * val) : val :=
+  let '(p, implied, falsy, raw) := x in public_get get_impl (fun _ => falsy) p implied raw.
